@@ -4,6 +4,7 @@ import XixiKV.Proofs.Record
 import XixiKV.Proofs.Fio
 import XixiKV.Proofs.TransEq
 import XixiKV.Proofs.TransEq2
+import XixiKV.Proofs.TransEq3
 /-!
 # C11 — block/chunk framing round-trips every record at every offset
 
@@ -198,5 +199,69 @@ theorem C11_translated_record_codec :
 /-- non-vacuity: a 40 000-byte payload appended to a file that ends 3 bytes before a block boundary -/
 example : ∃ f d : ByteArray, 0 < d.size ∧ f.size % BS = 32765 ∧ d.size = 40000 :=
   ⟨zeros 32765, zeros 40000, by simp, by simp [BS], by simp⟩
+
+
+/-! ## the sequential reader as TRANSLATED from the Go source (translator round 3) -/
+
+/-- `(*DataFile).zeroUntilEnd` as it stands in /repo (a `for` loop that reads the file block by block through
+    a pooled buffer, with a nested `range` loop over the bytes read) = the model's `allZeroFrom`: called with
+    `fileSize` = the size of the file it returns whether every byte from `from` on is zero, for every file,
+    every stale content of the pooled buffer and every start position; the fuel suffices. -/
+theorem C11_translated_zeroUntilEnd (file pool0 : ByteArray) (from_ : Nat) (hpool : pool0.size = 32768)
+    (hfile : file.size < 2^62) :
+    Generated.Trans.datafile.zeroUntilEnd pool0 file (from_ : Int) (file.size : Int) = some (allZeroFrom file from_) :=
+  TransEq.trans_zeroUntilEnd_eq file pool0 from_ hpool hfile
+
+/-- the sequential reader `(*DataReader).next` as it stands in /repo (loop over the chunks of one record with
+    early returns and `break`, the reader's block buffer, the calls of the translated `DecodeChunk`,
+    `zeroUntilEnd`, `endOfLog` and `Size`, the assigned receiver fields `blockID`, `offset`, `validEnd`) =
+    the model's sequential step `nextAt` followed by the reader's skip rule `rnormB/rnormO`, for BOTH values of
+    `tolerateTornTail`, every file whose block count fits `uint32` with room for one increment, every stale
+    content of the reader's buffer and of the pooled buffer, every reader state.  On success: the payload, the
+    position `(Fid, blockID, offset, Size)` (`Size` is a `uint32`: the model's size modulo 2³²), the new reader
+    state and `validEnd` = the end of the record; `io.EOF` / `ErrInvalidCRC` exactly when the model says end of
+    log (torn-tail, zero-tail and `tornZero` rules included) / error, with `validEnd` unchanged.  The fuel suffices. -/
+theorem C11_translated_next (file buf0 pool0 : ByteArray) (tol : Bool) (fid blockID offset : Nat) (validEnd : Int)
+    (hbuf : buf0.size = 32768) (hpool : pool0.size = 32768) (hfile : file.size / BS + 1 < 2^32)
+    (hblk : blockID < 2^32) :
+    match nextAt Chunk.crcCodec tol file blockID offset (file.size + 1) with
+    | .ok (d, sz, b', o') =>
+      Generated.Trans.datafile.next (file := file) (crc32_ChecksumIEEE := TransEq.crcNat) (getBuf_block := pool0)
+          (reader_dataFile_ID := fid) (reader_dataFile_lastBlockID := file.size / BS)
+          (reader_dataFile_lastBlockSize := file.size % BS) (reader_blockID := blockID) (reader_offset := offset)
+          (reader_blockBuf := buf0) (reader_validEnd := validEnd) (reader_tolerateTornTail := tol)
+        = some ((d, some { Fid := fid, BlockID := blockID, Offset := offset, Size := sz % 2^32 }, none),
+                rnormB b' o', rnormO o', ((b' * BS + o' : Nat) : Int))
+    | .eof => ∃ b o,
+      Generated.Trans.datafile.next (file := file) (crc32_ChecksumIEEE := TransEq.crcNat) (getBuf_block := pool0)
+          (reader_dataFile_ID := fid) (reader_dataFile_lastBlockID := file.size / BS)
+          (reader_dataFile_lastBlockSize := file.size % BS) (reader_blockID := blockID) (reader_offset := offset)
+          (reader_blockBuf := buf0) (reader_validEnd := validEnd) (reader_tolerateTornTail := tol)
+        = some ((ByteArray.empty, none, some "io.EOF"), b, o, validEnd)
+    | .err => ∃ b o,
+      Generated.Trans.datafile.next (file := file) (crc32_ChecksumIEEE := TransEq.crcNat) (getBuf_block := pool0)
+          (reader_dataFile_ID := fid) (reader_dataFile_lastBlockID := file.size / BS)
+          (reader_dataFile_lastBlockSize := file.size % BS) (reader_blockID := blockID) (reader_offset := offset)
+          (reader_blockBuf := buf0) (reader_validEnd := validEnd) (reader_tolerateTornTail := tol)
+        = some ((ByteArray.empty, none, some "ErrInvalidCRC"), b, o, validEnd) :=
+  TransEq.trans_next_eq file buf0 pool0 tol fid blockID offset validEnd hbuf hpool hfile hblk
+
+/-- non-vacuity of `C11_translated_next` (the `.ok` case on a multi-block record): a reader of either kind that
+    stands at the end of ANY file `f` returns, after a non-empty record `d` was appended (and whatever came
+    later), exactly `d`, the writer's position, and `validEnd` = the end of that record -/
+theorem C11_translated_next_write (d f post buf0 pool0 : ByteArray) (tol : Bool) (fid : Nat) (validEnd : Int)
+    (hd : 0 < d.size) (hbuf : buf0.size = 32768) (hpool : pool0.size = 32768)
+    (hF : (appendRec C f d ++ post).size / BS + 1 < 2^32) :
+    ∃ b o,
+      Generated.Trans.datafile.next (file := appendRec C f d ++ post) (crc32_ChecksumIEEE := TransEq.crcNat)
+          (getBuf_block := pool0) (reader_dataFile_ID := fid)
+          (reader_dataFile_lastBlockID := (appendRec C f d ++ post).size / BS)
+          (reader_dataFile_lastBlockSize := (appendRec C f d ++ post).size % BS)
+          (reader_blockID := endB f) (reader_offset := endO f)
+          (reader_blockBuf := buf0) (reader_validEnd := validEnd) (reader_tolerateTornTail := tol)
+        = some ((d, some { Fid := fid, BlockID := endB f, Offset := endO f,
+                           Size := (posOf C 0 f.size d).size % 2^32 }, none),
+                b, o, ((appendRec C f d).size : Int)) :=
+  TransEq.trans_next_write d f post buf0 pool0 tol fid validEnd hd hbuf hpool hF
 
 end XixiKV.C11
